@@ -1,14 +1,16 @@
-(** Correspondence for C04: whole SnapPolygon calls (shared snap case), compared on the observables C04 is about,
-    and, component level, kmpDeduplicate on chains of pixel centres through the verif hook (exact). *)
+(** Correspondence for C04: whole SnapPolygon calls (shared snap case), compared on the observables C04 is about;
+    component level through the verif hook: kmpDeduplicate on chains of pixel centres (exact) and
+    dedupe / match / split / ringContains (Corr/Components.v). *)
 From Coq Require Import ZArith List Bool.
-From Texel Require Export Prelude.Base Prelude.Corr Index.Model Snap.Model Corr.SnapCase.
+From Texel Require Export Prelude.Base Prelude.Corr Index.Model Snap.Model Corr.SnapCase Corr.Components.
 Import ListNotations.
 
 Inductive kobs := KOk (r : list pt) | KPanic (e : obs_err).
 
 Inductive case :=
 | SnapC (c : snapcase)
-| KmpCase (r : list pt) (obs : kobs).
+| KmpCase (r : list pt) (obs : kobs)
+| Comp (c : compcase).
 
 Definition check (k : case) : bool :=
   match k with
@@ -19,6 +21,7 @@ Definition check (k : case) : bool :=
       | Err e, KPanic (OErr e') => err_eqb e e'
       | _, _ => false
       end
+  | Comp c => check_comp c
   end.
 
 Definition mismatches (l : list case) : list N := mismatches_from check 0 l.
